@@ -65,6 +65,9 @@ T = {
     "C08": (True, "translation_validation", "round-trip monitor: sbml.write then sbml.read on generated models (expression grammar in real module files, private HOME per worker), re-read model compared with the original at random states; plain-name ablation twin for the open finding",
             "Outcomes tallied per feature: export raised (NotImplementedError/ValueError = controlled refusal, accepted), export crashed (violation), read failed (violation), equal, different (violation). Every original name must exist with the same initial value, parameter value, derived value, flux and derivative.",
             "Trusted: the original model evaluated directly. Extra components in the re-read model are allowed. pysbml is a third-party dependency of the import path."),
+    "C20": (True, "exploration", "law monitor over generated (data, prediction) pairs per shipped loss; residual log through the public residual_fn= wrapper, recomputed from independent simulations; before/after snapshot of the caller's model",
+            "Every shipped loss: smallest at equality and not rewarding magnitude; every logged residual of real fits (steady state / time course / protocol, L-BFGS-B / Nelder-Mead, scaled or not) equals the loss of an independent prediction; reported loss = recomputed loss <= start loss; caller's model untouched with as_deepcopy=True. One open finding (losses.mean).",
+            "Trusted: independent Simulator run on a fresh deep copy; the shipped loss function applied to it is the oracle for residual equality."),
 }
 PENDING_REASON = "check not built yet in this session (work in progress; design in DESIGN.md section 4)"
 
